@@ -15,6 +15,26 @@ var (
 	ErrCallback = errors.New("verif: injected callback failure")
 )
 
+// injectedErr is a fault value that additionally wraps a well-known error (an endpoint bound to another context reports
+// context.Canceled, a closed pipe io.ErrClosedPipe ...): the call must still report it.
+type injectedErr struct {
+	base error
+	wrap error
+}
+
+func (e *injectedErr) Error() string { return e.base.Error() + ": " + e.wrap.Error() }
+func (e *injectedErr) Unwrap() []error { return []error{e.base, e.wrap} }
+
+var wrapKinds = []error{nil, context.Canceled, context.DeadlineExceeded, io.ErrUnexpectedEOF, io.ErrClosedPipe, io.EOF}
+
+// FaultErr returns the error value a fault of the given kind injects; errors.Is(result, base) holds for every kind.
+func FaultErr(base error, kind int) error {
+	if kind <= 0 || kind >= len(wrapKinds) {
+		return base
+	}
+	return &injectedErr{base: base, wrap: wrapKinds[kind]}
+}
+
 // faultReader delivers doc in chunks, optionally fails after FailAt bytes and optionally cancels a context when the
 // read position crosses an offset.
 type faultReader struct {
@@ -28,6 +48,9 @@ type faultReader struct {
 	cancelAt int
 	cancel   context.CancelFunc
 	read     int
+	errv     error
+	returned bool // the call under test has returned
+	late     int  // bytes delivered after that
 }
 
 func (r *faultReader) Read(p []byte) (int, error) {
@@ -45,7 +68,7 @@ func (r *faultReader) Read(p []byte) (int, error) {
 	}
 	if r.pos >= limit {
 		if r.failAt >= 0 && r.failAt <= len(r.doc) {
-			return 0, ErrReader
+			return 0, r.errv
 		}
 		return 0, io.EOF
 	}
@@ -59,12 +82,15 @@ func (r *faultReader) Read(p []byte) (int, error) {
 	copy(p, r.doc[r.pos:r.pos+n])
 	r.pos += n
 	r.read += n
+	if r.returned {
+		r.late += n
+	}
 	if r.cancel != nil && r.cancelAt >= 0 && r.pos >= r.cancelAt {
 		r.cancel()
 		r.cancel = nil
 	}
 	if r.mode == 1 && r.failAt >= 0 && r.pos == limit && limit == r.failAt {
-		return n, ErrReader
+		return n, r.errv
 	}
 	return n, nil
 }
@@ -82,6 +108,7 @@ type recWriter struct {
 	yieldUs  int
 	cancelAt int
 	cancel   context.CancelFunc
+	errv     error
 }
 
 func (w *recWriter) Write(p []byte) (int, error) {
@@ -106,6 +133,9 @@ func (w *recWriter) Write(p []byte) (int, error) {
 			n = w.short
 		}
 		w.buf = append(w.buf, p[:n]...)
+		if w.errv != nil {
+			return n, w.errv
+		}
 		return n, ErrWriter
 	}
 	w.buf = append(w.buf, p...)
